@@ -158,7 +158,7 @@ Print Assumptions C03_clean_header_rs.
 Theorem C03_clean_whole_rs :
   forall (algo : N) (mb : nat) hash hlen, (forall m, length (hash m) = hlen) ->
   forall bdec o fast ik ies, 1 <= ik -> ik + ies <= 255 -> forall idec mu,
-  (forall c, 1 <= mu c <= mb) -> (forall c, 1 <= hlen + (mb - mu c)) -> forall window,
+  (forall s c, 1 <= mu s c <= mb) -> (forall s c, 1 <= hlen + (mb - mu s c)) -> forall window,
   let intra := C03Inst.intra_w algo ik ies idec in
   let fenc := C03Inst.fenc_w algo ik ies in
   let track := C03Inst.track_w algo mb hash mu in
@@ -213,14 +213,14 @@ Qed.
 
 Example C03_clean_whole_nonvacuous :
   run_w ex_marker fd false ex_look (C03Inst.intra_w 3 9 18 (fun _ _ => None)) 200
-        (C03Inst.blocksW_pipe 3 20 ex_hash 4 (fun _ _ _ _ => None) None false (fun c => if c <? 10 then 5 else 10))
-        (generate ex_marker fd (C03Inst.fenc_w 3 9 18) (C03Inst.track_w 3 20 ex_hash (fun c => if c <? 10 then 5 else 10)) [x2a; x2a] ex_tree)
+        (C03Inst.blocksW_pipe 3 20 ex_hash 4 (fun _ _ _ _ => None) None false (fun s c => if c <? 10 then 5 else if s <? 10 then 10 else 8))
+        (generate ex_marker fd (C03Inst.fenc_w 3 9 18) (C03Inst.track_w 3 20 ex_hash (fun s c => if c <? 10 then 5 else if s <? 10 then 10 else 8)) [x2a; x2a] ex_tree)
   = Done (mkC 2 0 0 0 0) [] 0.
 Proof.
   apply (C03_clean_whole_rs 3 20 ex_hash 4 ex_hash_len (fun _ _ _ _ => None) None false 9 18 ltac:(repeat constructor) ltac:(vm_compute; repeat constructor)
-           (fun _ _ => None) (fun c => if c <? 10 then 5 else 10)).
-  - intros c. destruct (c <? 10); split; repeat constructor.
-  - intros c. destruct (c <? 10); vm_compute; repeat constructor.
+           (fun _ _ => None) (fun s c => if c <? 10 then 5 else if s <? 10 then 10 else 8)).
+  - intros s c. destruct (c <? 10); [|destruct (s <? 10)]; split; repeat constructor.
+  - intros s c. destruct (c <? 10); [|destruct (s <? 10)]; vm_compute; repeat constructor.
   - discriminate.
   - vm_compute. repeat split.
   - intros f Hf. repeat (destruct Hf as [<-|Hf]; [vm_compute; repeat split|]). destruct Hf.
